@@ -91,5 +91,8 @@ package protocol
 //@   call types.(*NodeCredentials).HandleFetchNodeCredentialsResponse assert[C07,C12 optspassedstore] arg0 == creds && arg2 == storage
 //@   |   && opts(arg4).WithStorageWrapper == opts(opt).WithStorageWrapper
 //@   call tls.ClientConfigs assert[C07 storedcreds] arg1 == creds && creds != nil
+// every TLS attempt (one per certificate chain) runs on a transport connection dialled for that attempt - a
+// connection the server aborted on the first chain is not reused for the second
+//@   call crypto/tls.Client assert[C07 freshtransport] sinceLoopHead(arg0)
 //@   loop 0 invariant[tries] true
 //@   modifies St -- (the handshake model havocs ghost storage: it is the same specification the server side uses)
